@@ -1,5 +1,6 @@
 """C37 — the SQL proxy forwards only queries whose topics are all allowed."""
 import json
+import re
 
 from checks import lib
 from checks import C35 as q35
@@ -9,6 +10,14 @@ LEAN_MODULES = ["KafVerif.Props.C37"]
 OBLIGATIONS = [
     "KafVerif.C37.forward_sound",
     "KafVerif.C37.authorize_sound",
+    "KafVerif.C37.views_agree",
+    "KafVerif.C37.topics_agree",
+    "KafVerif.C37.authorize_sound_rel",
+    "KafVerif.C37.forward_sound_rel",
+    "KafVerif.C37.entry_trim_views_differ",
+    "KafVerif.C37.regexp_fold_views_differ",
+    "KafVerif.C37.regexp_fold_views_differ_rev",
+    "KafVerif.C37.lowerGo_ascii",
     "KafVerif.C37.cache_hit_exact_text",
     "KafVerif.C37.truncation_bypass_old",
     "KafVerif.C37.catalog_bypass_old",
@@ -16,22 +25,34 @@ OBLIGATIONS = [
     "KafVerif.C37.double_semicolon_bypass_old",
 ]
 BUILDS = {"h": ("sql", "./cmd/verif_c37", ["C37", "C36"])}
-TECHNIQUE = ("Lean 4 proof over a model of handleConn/authorizeQuery/ACL/decision cache and of the upstream's dispatch "
-             "+ differential correspondence through the real proxy in front of the real SQL server + direct monitor on "
-             "what the upstream received and read")
+TECHNIQUE = ("Lean 4 proof over a model of handleConn/authorizeQuery/ACL/decision cache (proxy.go) and, separately, of the "
+             "upstream's handleQuery (entry normalisation, catalog/SET dispatch, Parse) with a theorem that the two views of one "
+             "text agree + differential correspondence through the real proxy in front of the real SQL server, both for the "
+             "proxy's decisions and for the upstream's view of every forwarded text + direct monitor on what the upstream "
+             "received, read, planned, described and listed")
 LEVEL_TEXT = ("proof: forward_sound — for every parser, ACL, cache configuration, sequence of query texts of any length and "
               "expiry pattern, each text sent upstream is the client's text byte for byte and the upstream's view of exactly "
               "that text (catalog branch / SET branch / topics of Parse(text)) touches only allowed topics, listing all topics "
               "only with the SHOW TOPICS permission (cache invariant: every entry holds authorize(key); induction over the "
               "connection). Four witness theorems show the code before fixes/C37-authorize-forwarded-text.patch forwards "
-              "disallowed texts (512-byte truncation, catalog name in alias position, SET + catalog name, `;;`). Tie: the "
+              "disallowed texts (512-byte truncation, catalog name in alias position, SET + catalog name, `;;`). "
+              "views_agree: the proxy's view of a text (proxy.go's catalog test, SET test, Parse) equals the upstream's view "
+              "(server.go handleQuery: entry normalisation = none, handleCatalogQuery, handleSetCommand, Parse), both with "
+              "strings.ToLower modelled up to non-ASCII bytes (İ->i, K->k); forward_sound_rel is the property for ANY upstream "
+              "on which that agreement holds; entry_trim_views_differ / regexp_fold_views_differ(_rev) exhibit an upstream that "
+              "strips a terminator on entry and a proxy folding case like a (?i) regexp, for which it fails. Tie: the "
               "same connections are run through the real proxy.handleConn wired to the real server.handleConnection with "
-              "recording lister/decoder/resolver, and through the model; fwd/deny decisions are diffed and every forwarded "
-              "text is checked against what the upstream actually received and read.")
+              "recording lister/decoder/resolver and a per-topic schema, and through the model; fwd/deny decisions are diffed, "
+              "the model's upstream view of every forwarded text is diffed with what the real upstream touched (decoder and "
+              "resolver reads, EXPLAIN plan rows, DESCRIBE schema rows, topic listing), and every forwarded text is checked "
+              "against the ACL on those observations.")
 LEVEL_NOTE = ("kafsql.Parse is one shared parameter of proxy and upstream in the theorem; the driver instantiates it with the "
-              "C35 parser model. path.Match is modelled for literal bytes, `*`, `?`. The upstream's dispatch (catalog before "
-              "SET before Parse) is modelled from server.handleQuery and validated by the recording upstream; DESCRIBE reads "
-              "only configuration and is not observable there. TTL expiry is in the theorem (arbitrary expiry oracle) but the "
+              "C35 parser model. path.Match is modelled for literal bytes, `*` and `?` (one UTF-8 rune, as path.Match decodes it). The upstream's dispatch (entry, catalog before "
+              "SET before Parse) is modelled from server.handleQuery and validated against the recording upstream on every "
+              "forwarded text of the modelled domain (well-formed UTF-8, no non-ASCII white space, known non-ASCII runes); the "
+              "exact direction of that comparison is applied to SHOW PARTITIONS, DESCRIBE, EXPLAIN, SHOW TOPICS, the four "
+              "topic-listing catalog tables and SELECTs without WHERE; a catalog text is modelled as listing all topics even for "
+              "pg_type/pg_namespace/pg_database. TTL expiry is in the theorem (arbitrary expiry oracle) but the "
               "harness runs with a long TTL or the cache off.")
 ASSUMPTIONS = [
     "proxy and upstream run the same kafsql.Parse; the upstream answers simple-protocol queries through server.handleQuery only (the proxy rejects the extended protocol)",
@@ -58,7 +79,25 @@ ACLS = [
     (["café", "orders"], []),
     (["größe", "kelvin", "ωmega", "café"], []),
     ([], ["cafÉ", "grÖße", "\u212aelvin", "Ωmega"]),
+    # the name with a terminator glued on is allowed, the name itself is not (a side that strips one `;` more reads it)
+    (["orders?", "t", "secret;*"], []),
+    (["*;"], ["audit"]),
+    # SHOW TOPICS / catalog listings allowed ("?" matches "*"), almost no topic allowed
+    (["?", "b?"], []),
 ]
+
+# runes that Go's case functions map onto ASCII letters: strings.ToLower(İ U+0130) = "i", strings.ToLower(K U+212A) = "k",
+# strings.ToUpper(ı U+0131) = "I", strings.ToUpper(ſ U+017F) = "S"; EqualFold / regexp (?i) relate K~k and ſ~s but not İ~i
+FOLD = {"i": ["\u0130", "\u0131"], "k": ["\u212a"], "s": ["\u017f"]}
+FOLD_KEYWORDS = ["information_schema", "pg_catalog", "pg_class", "pg_tables", "pg_namespace", "pg_database", "pg_type", "tables",
+                 "columns", "set", "reset", "show", "topics", "partitions", "select", "from", "join", "left", "describe", "explain",
+                 "where", "limit", "last", "tail", "within", "scan", "on", "all"]
+CATALOG_NAMES = ["information_schema.tables", "information_schema.columns", "pg_catalog.pg_class", "pg_catalog.pg_tables",
+                 "pg_catalog.pg_type", "INFORMATION_SCHEMA.TABLES", "Pg_Catalog.Pg_Namespace"]
+# statement terminators / tails: the proxy and the upstream each strip "one `;`" somewhere
+TAILS = [";", ";;", "; ;", " ;", ";\n", "\t;", ";;;", "; ; ;", " -- x", ";--", "; -- c", ";/**/", "\n", ";\x0b", "\x0c;", " ", ";\t;",
+         ";; ", " ;;", ";\r\n;"]
+UNICODE_TAILS = [";\u00a0", "\u00a0;", ";\u3000;", ";\u0085", "\u2028;;"]      # monitor only (outside the model's domain)
 
 
 def hx(s):
@@ -158,6 +197,56 @@ def long_query(rng):
     return "select * from %s x%s" % (t1, (" " * 500) + "join %s y within 1m last 1h" % t2)
 
 
+def fold_variants(word):
+    """Every spelling of `word` with exactly one letter replaced by a rune Go folds onto it, plus all of them replaced."""
+    out = []
+    for i, c in enumerate(word):
+        for r in FOLD.get(c.lower(), []):
+            out.append(word[:i] + r + word[i + 1:])
+    allr = "".join(FOLD[c.lower()][0] if c.lower() in FOLD else c for c in word)
+    if allr != word and allr not in out:
+        out.append(allr)
+    return out
+
+
+def fold_mutate(rng, text):
+    """Replace letters of one or two KEYWORDS of the text (catalog names, SET, SHOW, SELECT, FROM, JOIN, …) by fold runes."""
+    words = [m for m in re.finditer(r"[A-Za-z_]+", text)
+             if m.group().lower() in FOLD_KEYWORDS and any(c.lower() in FOLD for c in m.group())]
+    if not words:
+        return text
+    for _ in range(1 if rng.chance(3, 4) else 2):
+        m = rng.choice(words)
+        w = text[m.start():m.end()]
+        if len(w) != m.end() - m.start() or w.lower() != m.group().lower():
+            continue                       # an earlier replacement moved nothing (1 rune for 1 letter), but stay safe
+        vs = fold_variants(w)
+        if vs:
+            text = text[:m.start()] + rng.choice(vs) + text[m.end():]
+    return text
+
+
+def statements_on(t, t2="orders"):
+    """One statement of every kind whose LAST token is the topic t (so that a tail is glued to the topic), and the other kinds."""
+    return ["select * from %s" % t, "SELECT _key, _value FROM %s" % t.upper(), "select count(*) from %s" % t,
+            "select * from %s o join %s" % (t2, t), "show partitions from %s" % t, "SHOW PARTITIONS FROM %s" % t, "describe %s" % t,
+            "DESCRIBE %s" % t, "explain select * from %s" % t, "EXPLAIN SELECT * FROM %s" % t,
+            "select * from %s limit 2" % t, "select * from %s o join %s p on o._key = p._key within 10m last 1h" % (t2, t),
+            "explain select * from %s last 1h" % t, "show topics", "set x = 1", "reset all", "SET a = %s" % t,
+            "select * from information_schema.tables", "select * from %s pg_catalog.pg_tables" % t]
+
+
+def tail_query(rng, acl):
+    """A statement with a terminator tail on a topic the ACL cares about."""
+    names = [p.strip(" ;*?") for p in acl[0] + acl[1] if p.strip(" ;*?")] or TOPICS
+    t = rng.choice(names) if rng.chance(3, 4) else rng.choice(TOPICS)
+    q = rng.choice(statements_on(t, rng.choice(TOPICS)))
+    tail = rng.choice(TAILS) if rng.chance(9, 10) else rng.choice(UNICODE_TAILS)
+    if rng.chance(1, 6):
+        tail += rng.choice(TAILS)
+    return q + tail
+
+
 def gen_conn(rng, nq):
     acl = rng.choice(ACLS)
     ttl, mx = rng.choice([(300, 8), (300, 2), (0, 0), (300, 1), (60, 100)])
@@ -200,6 +289,12 @@ def gen_conn(rng, nq):
             texts.append(q)
             lines.append("q " + hx(q))
             q = q.replace(a, b) if rng.chance(1, 2) else (q.upper() if rng.chance(1, 2) else q.swapcase())
+        elif k == 7:
+            q = fold_mutate(rng, special(rng) if rng.chance(1, 2) else topic_query(rng))
+            if rng.chance(1, 3):
+                q = q.upper()
+        elif k == 8:
+            q = tail_query(rng, acl)
         else:
             q = topic_query(rng)
             if rng.chance(1, 4):
@@ -210,24 +305,104 @@ def gen_conn(rng, nq):
     return acl, lines, texts
 
 
+def unhex_list(v):
+    return [bytes.fromhex(h) if h != "-" else b"" for h in v.split(",")] if v != "-" else []
+
+
+def parse_out(out):
+    """`fwd <hex+hex…> k=v …` -> (list of texts, dict)"""
+    f = out.split()
+    sent = [bytes.fromhex(h) if h != "-" else b"" for h in f[1].split("+")]
+    return sent, dict(x.split("=", 1) for x in f[2:])
+
+
+def touched(kv):
+    """Topics the REAL upstream touched for a forwarded text: decoder / resolver reads, EXPLAIN plans, DESCRIBE schemas."""
+    out = []
+    for k in ("reads", "plan", "desc"):
+        for t in unhex_list(kv.get(k, "-")):
+            if t not in out:
+                out.append(t)
+    return out
+
+
 def monitor(acl, text, out):
     """The property on one forwarded query."""
     if not out.startswith("fwd "):
         return None
-    f = out.split()
-    sent = [bytes.fromhex(h) if h != "-" else b"" for h in f[1].split("+")]
+    sent, kv = parse_out(out)
     if sent != [text]:
         return "forwarded-text-differs", "the upstream received %r for the client text %r" % (sent, text[:80])
-    kv = dict(x.split("=", 1) for x in f[2:])
-    reads = [bytes.fromhex(h).decode("utf8", "replace") for h in kv["reads"].split(",")] if kv["reads"] != "-" else []
-    for t in reads:
+    for tb in touched(kv):
+        t = tb.decode("utf8", "replace")
         if not allows(acl, t):
-            return "forwarded-query-reads-denied-topic", "forwarded %r made the upstream read topic %r, which the ACL %r denies" % (
-                text[:100] + (b"..." if len(text) > 100 else b""), t, acl)
+            how = "read" if tb in unhex_list(kv["reads"]) else ("plan (EXPLAIN)" if tb in unhex_list(kv.get("plan", "-")) else "describe")
+            return "forwarded-query-reads-denied-topic", "forwarded %r made the upstream %s topic %r, which the ACL %r denies" % (
+                text[:100] + (b"..." if len(text) > 100 else b""), how, t, acl)
     if kv["listed"] == "1" and not allow_show(acl):
         return "forwarded-query-lists-all-topics", "forwarded %r made the upstream list all topics although the ACL %r does not allow SHOW TOPICS" % (
             text[:100], acl)
     return None
+
+
+def lower_go(b):
+    """strings.ToLower as far as ASCII patterns see it (İ -> i, K -> k, ASCII capitals)."""
+    return b.replace("\u0130".encode(), b"i").replace("\u212a".encode(), b"k").lower()
+
+
+LISTING_CATALOGS = [b"information_schema.tables", b"information_schema.columns", b"pg_catalog.pg_tables", b"pg_catalog.pg_class"]
+OTHER_CATALOGS = [b"pg_catalog.pg_namespace", b"pg_catalog.pg_type", b"pg_catalog.pg_database"]
+
+
+def view_check(text, impl_out, model_out):
+    """The UPSTREAM model (Lean `upstreamView`, from server.handleQuery) against what the REAL upstream did with the same
+    forwarded text.  Sound direction always (everything the real upstream touched is in the model's view); exact direction
+    where the real upstream's action is determined by the text alone."""
+    _, ikv = parse_out(impl_out)
+    _, mkv = parse_out(model_out)
+    real = set(touched(ikv))
+    view = set(unhex_list(mkv["view"]))
+    kind = mkv["kind"]
+    if not real <= view:
+        return "the real upstream touched topics %r; the upstream model's view of this text is %r (kind %s)" % (
+            sorted(real), sorted(view), kind)
+    if ikv["listed"] == "1" and mkv["listed"] != "1":
+        return "the real upstream listed all topics; the upstream model's view of this text does not (kind %s)" % kind
+    if ikv.get("err") != "0":
+        return None
+    universe = set(t.encode() for t in TOPICS)
+    low = lower_go(text)
+    expect = set()
+    if kind in ("showparts", "explain"):
+        expect = view
+    elif kind == "describe" or (kind == "select" and b"where" not in low and b"limit 0" not in low):
+        expect = view & universe
+    if not expect <= real:
+        return "the upstream model's view of this text is %r (kind %s); the real upstream answered without error and touched only %r" % (
+            sorted(view), kind, sorted(real))
+    lists = kind == "showtopics" or (kind == "cat" and any(n in low for n in LISTING_CATALOGS) and not any(n in low for n in OTHER_CATALOGS))
+    if lists and ikv["listed"] != "1":
+        return "the upstream model says this text (kind %s) lists all topics; the real upstream answered without listing" % kind
+    return None
+
+
+UNI_WS = set("\u0085\u00a0\u1680\u2000\u2001\u2002\u2003\u2004\u2005\u2006\u2007\u2008\u2009\u200a\u2028\u2029\u202f\u205f\u3000")
+DOMAIN_NONASCII = set("".join(q35.SAFE_NONASCII) + "".join(q35.SAFE_NONASCII).upper() + "ÉÖöΩω\u212a\u0130\u0131\u017f")
+
+
+def in_domain(b):
+    """Texts on which the model (parser model + lowerGo) is meant to be exact: well-formed UTF-8, no non-ASCII white space
+    (strings.TrimSpace / Fields see it, the byte model does not), non-ASCII runes from a known set, no _ts filter."""
+    try:
+        s = b.decode("utf-8")
+    except UnicodeDecodeError:
+        return False
+    for ch in s:
+        if ord(ch) < 128:
+            continue
+        if ch in UNI_WS or ch not in DOMAIN_NONASCII:
+            return False
+    return b"_ts" not in b.lower()
 
 
 def run_case(ck, binary, lines, tag):
@@ -253,8 +428,49 @@ def corpus():
     head3 = "conn 300 100 %s -" % ",".join(hx(p) for p in acl3[0])
     qs3 = ["select * from café last 1h", "SELECT * FROM CAFÉ LAST 1h", "select  *  from café last 1h", "select * from cafÉ last 1h",
            "select * from orders limit 1", "SELECT * FROM ORDERS LIMIT 1", "select * from \u212aelvin limit 1"]
+    # path.Match's `?` is one RUNE: `orders?` allows ordersé / orders😀 (2 and 4 bytes), not orders / ordersxy
+    acl4 = (["orders?", "b??"], [])
+    qs4 = ["select * from ordersé limit 1", "select * from orders😀 limit 1", "show partitions from orders日", "describe ordersx",
+           "select * from orders limit 1", "select * from ordersé日", "show partitions from b😀é", "show partitions from bé"]
     return [(acl, [head] + ["q " + hx(q) for q in qs], qs), (acl2, [head2] + ["q " + hx(q) for q in qs2], qs2),
-            (acl3, [head3] + ["q " + hx(q) for q in qs3], qs3)]
+            (acl3, [head3] + ["q " + hx(q) for q in qs3], qs3), conn_of(acl4, qs4)]
+
+
+def conn_of(acl, qs, ttl=0, mx=0):
+    head = "conn %d %d %s %s" % (ttl, mx, ",".join(hx(p) for p in acl[0]) or "-", ",".join(hx(p) for p in acl[1]) or "-")
+    return (acl, [head] + ["q " + hx(q) for q in qs], qs)
+
+
+def fold_corpus():
+    """Systematic: every catalog name / statement keyword with each letter replaced by a rune Go folds onto it, in
+    table, alias and SET position, under ACLs that (a) allow a topic but no listing, (b) allow listing but hardly a topic."""
+    qs = []
+    for name in CATALOG_NAMES:
+        for v in [name] + fold_variants(name):
+            qs += ["select * from orders %s" % v, "SET a = %s" % v, "select * from %s" % v, "select * from secret %s" % v]
+    st = []
+    for q in ["set x = 1", "reset all", "show topics", "show partitions from secret", "describe secret",
+              "explain select * from secret limit 1", "select * from secret limit 1",
+              "select * from orders o join secret s on o._key = s._key within 10m last 1h",
+              "select * from orders o left join secret s on o._key = s._key within 10m last 1h",
+              "SHOW PARTITIONS FROM orders", "DESCRIBE orders", "SELECT * FROM orders JOIN secret"]:
+        for m in re.finditer(r"[A-Za-z_]+", q):
+            if m.group().lower() in FOLD_KEYWORDS:
+                for v in fold_variants(m.group()):
+                    st.append(q[:m.start()] + v + q[m.end():])
+    return [conn_of((["orders"], []), qs + st), conn_of(([], ["secret"]), qs[::2] + st),
+            conn_of((["?", "b?"], []), qs), conn_of((["orders", "t"], ["secret"]), st, 300, 100)]
+
+
+def tail_corpus(quick):
+    """Systematic: every statement kind x every terminator tail, on a topic whose name + `;` is allowed and whose name is not."""
+    out = []
+    for acl, t in [(([], ["secret"]), "secret"), ((["orders?", "t", "secret;*"], []), "orders"), ((["*"], ["secret"]), "secret"),
+                   ((["orders?", "t", "secret;*"], []), "secret")][:None if not quick else 3]:
+        qs = [q + tail for q in statements_on(t) for tail in TAILS]
+        qs += [q + tail for q in statements_on(t)[:8:2] for tail in UNICODE_TAILS]
+        out.append(conn_of(acl, qs, *( (300, 100) if t == "orders" else (0, 0))))
+    return out
 
 
 def run(ck):
@@ -267,8 +483,12 @@ def run(ck):
                       "decision cache (off, size 1/2/8/100) receiving 25 query texts: statements over a 10-topic universe "
                       "(select, joins, explain, show, describe), texts longer than 512 bytes whose join / catalog name / topic "
                       "sits after the cut, catalog and SET texts, exact and normalised repeats, texts sharing their first 512 "
-                      "bytes; non-trivial = forwarded and the upstream read at least one topic or listed topics")
-    conns = corpus()
+                      "bytes; systematically every catalog name and statement keyword with one letter (or all) replaced by a rune "
+                      "Go folds onto ASCII (U+0130, U+0131, U+212A, U+017F) in table / alias / SET position, and every statement "
+                      "kind x 20 terminator tails (`;`, `;;`, `; ;`, white space, comments, Unicode spaces) on a topic whose name + `;` "
+                      "is allowed and whose name is not; non-trivial = forwarded and the upstream read at least one topic or "
+                      "listed topics")
+    conns = corpus() + fold_corpus() + tail_corpus(quick)
     for _ in range(40 if quick else 400):
         conns.append(gen_conn(ck.rng.fork(), 25 if quick else 40))
     lines = ["topics " + ",".join(hx(t) for t in TOPICS)]
@@ -302,7 +522,7 @@ def run(ck):
     for start, acl, texts in index:
         for j, q in enumerate(texts):
             b = q.encode() if isinstance(q, str) else q
-            if not q35.in_domain(b) or b"_ts" in b.lower():
+            if not in_domain(b):
                 keep[start + 1 + j] = False
     mfn = ck.path("model_in.txt")
     open(mfn, "w").write("\n".join(l for l, k in zip(lines, keep) if k) + "\n")
@@ -314,11 +534,21 @@ def run(ck):
     for i, mo in zip(kept, model):
         io = " ".join(impl[i].split()[:2])
         ck.cov["traces_validated_against_impl"] += 1
-        if io != mo:
+        if io != " ".join(mo.split()[:2]):
             ck.cov["disagreements_checked"] += 1
             ck.broke("correspondence model/implementation (proxy.handleConn)",
                      "line %r\nimpl : %s\nmodel: %s" % (lines[i][:300], impl[i][:300], mo[:300]))
             return
+        if io.startswith("fwd "):
+            # the upstream half of the model against the real upstream, on every forwarded text
+            ck.count("upstream_views_compared")
+            text = bytes.fromhex(lines[i].split()[1]) if lines[i].split()[1] != "-" else b""
+            bad = view_check(text, impl[i], mo)
+            if bad:
+                ck.cov["disagreements_checked"] += 1
+                ck.broke("correspondence upstream model/real upstream (server.handleQuery)",
+                         "text %r\n%s\nimpl : %s\nmodel: %s" % (text[:300], bad, impl[i][:400], mo[:400]))
+                return
 
 
 def replay(ck, path):
